@@ -903,7 +903,8 @@ def build(repo=None):
         return None
 
     eng.method_models["Import"] = lambda e, s, recv, args, kw, nd: ([(s_note(s, kw), new_import)] if isinstance(recv, Opaque) and recv.tag == "module:ast" else None)
-    eng.method_models["alias"] = lambda e, s, recv, args, kw, nd: ([(s, Opaque("alias", attrs={"args": Tup(args)}))] if isinstance(recv, Opaque) and recv.tag == "module:ast" else None)
+    # ast.alias(name, asname): positional or by keyword
+    eng.method_models["alias"] = lambda e, s, recv, args, kw, nd: ([(s, Opaque("alias", attrs={"args": Tup(list(args) + ([kw["name"]] if not args and "name" in kw else [])), "asname": (args[1] if len(args) > 1 else kw.get("asname", NONE))}))] if isinstance(recv, Opaque) and recv.tag == "module:ast" else None)
 
     def s_note(s, kw):
         s1 = s.clone()
@@ -911,7 +912,7 @@ def build(repo=None):
         good = False
         if isinstance(nm, Ref):
             items = s1.get(nm).items
-            good = len(items) == 1 and isinstance(items[0], Opaque) and items[0].tag == "alias" and len(items[0].attrs["args"].items) >= 1 and str(getattr(items[0].attrs["args"].items[0], "t", "")) == '"jaxtyping"'
+            good = len(items) == 1 and isinstance(items[0], Opaque) and items[0].tag == "alias" and len(items[0].attrs["args"].items) >= 1 and str(getattr(items[0].attrs["args"].items[0], "t", "")) == '"jaxtyping"' and isinstance(items[0].attrs.get("asname"), NoneV)
         s1.ghost["import_ok"] = good
         return s1
 
